@@ -78,7 +78,7 @@ def run(ctx, rep):
         for t, st in an.ret_leaves() or []:
             if t.op == "agg" and t.args[3] == "Ok" and t.args[4][0].op == "agg" and t.args[4][0].args[3] == "None":
                 fs = fact_norms(st)
-                if ("true", ("Eq",) + tuple(sorted((nb, C(0)), key=repr))) in fs:
+                if ("true", ("Eq",) + tuple(sorted((nb, C(0)), key=repr))) in fs or ("true", ("Lt", nb[1], nb[2])) in fs:     # nbucket == 0, also written data.len() < entry size
                     empties += 1
         rep.require(empties == 1 or (zero_when_empty and found), "linkage", "find:empty", w, "None for an empty bucket array (early return, or start index 0 = end of chain)",
                     "%d early-None outcomes guarded by buckets.is_empty()" % empties)
